@@ -72,6 +72,8 @@ enum N {
     Synced,
     Unlinked,
     Event(i32),
+    // the agent re-establishes the connection (after a failed write): `connect` again with fresh channels, no notification
+    Reconnect,
 }
 #[derive(Clone, Debug, PartialEq)]
 enum MState {
@@ -100,11 +102,14 @@ fn run_sequence(seq: &[N], ews: bool, tou: bool) -> Result<bool, String> {
         stop_rx: Some(stop_rx),
     };
     DownlinkChannel::<FakeAgent>::connect(&mut dl, &agent, out_tx, in_rx);
+    let mut keep_alive = vec![];
     let mut m = MState::Unlinked;
     let mut expected: Vec<String> = vec![];
     for (step, n) in seq.iter().enumerate() {
         // only what a well-behaved link can produce
         let legal = match (n, &m) {
+            (N::Reconnect, MState::Stopped) => false,
+            (N::Reconnect, _) => !tou,
             (N::Linked, MState::Unlinked) => true,
             (N::Event(_), MState::Linked(_)) | (N::Event(_), MState::Synced(_)) => true,
             (N::Synced, MState::Linked(Some(_))) => true,
@@ -114,16 +119,28 @@ fn run_sequence(seq: &[N], ews: bool, tou: bool) -> Result<bool, String> {
         if !legal {
             return Ok(false);
         }
-        dl.next = Some(Ok(match *n {
-            N::Linked => DownlinkNotification::Linked,
-            N::Synced => DownlinkNotification::Synced,
-            N::Unlinked => DownlinkNotification::Unlinked,
-            N::Event(v) => DownlinkNotification::Event { body: v },
-        }));
-        if let Some(handler) = DownlinkChannel::<FakeAgent>::next_event(&mut dl, &agent) {
-            run_handler(handler, &agent);
+        if matches!(n, N::Reconnect) {
+            let (in_tx2, in_rx2) = byte_channel::byte_channel(non_zero_usize!(64));
+            let (out_tx2, out_rx2) = byte_channel::byte_channel(non_zero_usize!(64));
+            DownlinkChannel::<FakeAgent>::connect(&mut dl, &agent, out_tx2, in_rx2);
+            keep_alive.push((in_tx2, out_rx2));
+        } else {
+            dl.next = Some(Ok(match *n {
+                N::Linked => DownlinkNotification::Linked,
+                N::Synced => DownlinkNotification::Synced,
+                N::Unlinked => DownlinkNotification::Unlinked,
+                N::Event(v) => DownlinkNotification::Event { body: v },
+                N::Reconnect => unreachable!(),
+            }));
+            if let Some(handler) = DownlinkChannel::<FakeAgent>::next_event(&mut dl, &agent) {
+                run_handler(handler, &agent);
+            }
         }
         match *n {
+            N::Reconnect => {
+                // a new link: nothing of the previous one may survive, and nothing is reported
+                m = MState::Unlinked;
+            }
             N::Linked => {
                 expected.push("linked".into());
                 m = MState::Linked(None);
@@ -184,7 +201,7 @@ fn run_sequence(seq: &[N], ews: bool, tou: bool) -> Result<bool, String> {
 #[test]
 fn hosted_value_downlink_contract() {
     let depth: usize = std::env::var("VERIF_BX_DEPTH").ok().and_then(|s| s.parse().ok()).unwrap_or(7);
-    let ops = [N::Linked, N::Synced, N::Unlinked, N::Event(1), N::Event(2)];
+    let ops = [N::Linked, N::Synced, N::Unlinked, N::Event(1), N::Event(2), N::Reconnect];
     let mut evaluations = 0usize;
     let mut nontrivial = 0usize;
     let mut failure: Option<String> = None;
